@@ -477,13 +477,17 @@ where
     F: std::future::Future<Output = T>,
 {
     crate::driver::tick();
+    crate::driver::note_worker_thread();
+    crate::driver::poll_end();
     POLLS.with(|c| c.set(0));
     SPUN.with(|c| c.set(false));
     let rt = tokio::runtime::Builder::new_current_thread()
         .enable_time()
         .start_paused(true)
         .rng_seed(tokio::runtime::RngSeed::from_bytes(&seed.to_le_bytes()))
+        .on_after_task_poll(|_| crate::driver::poll_end())
         .on_before_task_poll(|_| {
+            crate::driver::poll_begin();
             let n = POLLS.with(|c| {
                 let n = c.get() + 1;
                 c.set(n);
